@@ -385,6 +385,7 @@ impl Session {
         // processes the leading well-formed prefix of the stream.
         let mut cmd_iter = cmds.filter_map(Result::ok).peekable();
         let mut num_adrreq = 0;
+        let mut ch_mask_ctl_valid = true;
         while let Some(cmd) = cmd_iter.next() {
             match cmd {
                 DevStatusReq(..) => {
@@ -420,12 +421,17 @@ impl Session {
                     // commands.
                     num_adrreq += 1;
 
-                    // TODO: Validate that input is not RFU
-                    let _ = region.channel_mask_update(
-                        &mut channel_mask,
-                        payload.redundancy().channel_mask_control(),
-                        payload.channel_mask(),
-                    );
+                    // An RFU ChMaskCntl value rejects the whole block.
+                    if region
+                        .channel_mask_update(
+                            &mut channel_mask,
+                            payload.redundancy().channel_mask_control(),
+                            payload.channel_mask(),
+                        )
+                        .is_none()
+                    {
+                        ch_mask_ctl_valid = false;
+                    }
 
                     // Check whether LinkADRReq commands continue...
                     if let Some(LinkADRReq(..)) = cmd_iter.peek() {
@@ -452,12 +458,17 @@ impl Session {
                         p => region.check_tx_power(p as u8),
                     };
 
-                    let cm_ack = region.channel_mask_validate(&channel_mask, dr);
+                    let cm_ack =
+                        ch_mask_ctl_valid && region.channel_mask_validate(&channel_mask, dr);
                     if cm_ack && let (Some(dr), Some(pw)) = (dr, pw) {
                         // TODO: handle nbtrans
                         configuration.data_rate = dr;
                         configuration.tx_power = pw;
                         region.channel_mask_set(channel_mask.clone());
+                    } else {
+                        // A rejected block changes nothing: later blocks of the same
+                        // frame start again from the mask in force.
+                        channel_mask = region.channel_mask_get();
                     }
                     // Add matching number of LinkADRAns responses
                     for _ in 0..num_adrreq {
@@ -468,6 +479,7 @@ impl Session {
                         self.uplink.add_mac_command(cmd);
                     }
                     num_adrreq = 0;
+                    ch_mask_ctl_valid = true;
                 }
                 LinkCheckAns(..) => {
                     /* TODO: Payload contents are not consumed/handled
